@@ -448,7 +448,7 @@ func (m *tokenBucketWrapper) Resize(qps uint32, burst uint32) bool {
 		m.tokenBatch = GlobalTokenBucketBatchAcquireMin
 	}
 	m.qps = qps
-	m.burst = qps
+	m.burst = burst
 	if atomic.LoadUint32(&m.serverUnavailable) == 0 {
 		return m.FlowControl.Resize(qps, burst)
 	}
